@@ -8,79 +8,76 @@ Local Open Scope list_scope.
 
 (* ---------------------------------------------------------------- (1) the generated tables *)
 
-(* clone_complete : incl ast_child_fields cloned_child_fields  is FALSE on the pinned tree:
-   clone_ast_node does not copy every child member of ASTNode (DESIGN section 7 #21). *)
-Theorem clone_complete_refuted : ~ incl ast_child_fields cloned_child_fields.
-Proof. exact clone_complete_refuted_l. Qed.
-Print Assumptions clone_complete_refuted.
+(* clone_complete: clone_ast_node copies every child member of ASTNode (25 pointers, 11 vectors, the bodies of
+   match_arms).  It was refuted on the pinned tree (8 of 25, 4 of 11, 0 of 1: DESIGN section 7 #21) and holds since
+   repair 211b7a0; a member that is (again) not copied, or a new child member of ASTNode that clone_ast_node
+   ignores, breaks this obligation. *)
+Theorem clone_complete : incl ast_child_fields cloned_child_fields.
+Proof. exact clone_complete_l. Qed.
+Print Assumptions clone_complete.
 
-(* ... but it misses nothing beyond the recorded list (17 pointers, 7 vectors, match_arms): a member
-   that is newly not copied, or a new child member of ASTNode that clone_ast_node ignores, breaks
-   this obligation. *)
-Theorem clone_missing_children_recorded :
-  incl (missing ast_child_fields cloned_child_fields) recorded_missing_children.
-Proof. exact clone_missing_children_recorded_l. Qed.
-Print Assumptions clone_missing_children_recorded.
-
-(* the same for the scalar members (23 of 96 are copied) *)
-Theorem clone_scalars_complete_refuted : ~ incl ast_scalar_fields cloned_scalar_fields.
-Proof. exact clone_scalars_complete_refuted_l. Qed.
-Print Assumptions clone_scalars_complete_refuted.
-
-Theorem clone_missing_scalars_recorded :
-  incl (missing ast_scalar_fields cloned_scalar_fields) recorded_missing_scalar.
-Proof. exact clone_missing_scalars_recorded_l. Qed.
-Print Assumptions clone_missing_scalars_recorded.
+(* the same for the 96 scalar members (23 were copied on the pinned tree) *)
+Theorem clone_scalars_complete : incl ast_scalar_fields cloned_scalar_fields.
+Proof. exact clone_scalars_complete_l. Qed.
+Print Assumptions clone_scalars_complete.
 
 (* the translator is consistent: what clone_ast_node copies are members of ASTNode of that kind *)
 Theorem cloned_fields_exist :
   incl cloned_ptr_fields ast_ptr_fields /\ incl cloned_vec_fields ast_vec_fields /\
-  incl cloned_scalar_fields ast_scalar_fields.
+  incl cloned_indirect_fields ast_indirect_fields /\ incl cloned_scalar_fields ast_scalar_fields.
 Proof. exact cloned_fields_exist_l. Qed.
 Print Assumptions cloned_fields_exist.
 
-(* substitute_type_parameters descends into every child clone_ast_node copies, and still rewrites
-   the five recorded type-name members *)
+(* substitute_type_parameters descends into every child clone_ast_node copies - hence into every child of ASTNode *)
 Theorem subst_visits_every_cloned_child : incl cloned_child_fields subst_child_fields.
 Proof. exact subst_visits_every_cloned_child_l. Qed.
 Print Assumptions subst_visits_every_cloned_child.
 
-Theorem subst_strings_recorded : incl recorded_subst_strings subst_string_fields.
+Theorem subst_visits_every_child : incl ast_child_fields inst_child_fields.
+Proof. exact inst_fields_complete_l. Qed.
+Print Assumptions subst_visits_every_child.
+
+(* it rewrites the six recorded type-name members and type_arguments, and recomputes type_info only for a rewritten name *)
+Theorem subst_strings_recorded :
+  incl recorded_subst_strings subst_string_fields /\ incl recorded_subst_strvecs subst_strvec_fields /\
+  subst_type_info_guarded = true.
 Proof. exact subst_strings_recorded_l. Qed.
 Print Assumptions subst_strings_recorded.
 
-(* not every type-carrying member is rewritten (type_arguments of a nested generic call, new T, ...) *)
-Theorem subst_complete_refuted : ~ incl type_carrying_fields subst_string_fields.
+(* not every type-carrying member is rewritten: original_type_name, exception_type, lambda_return_type_name - and nothing else *)
+Theorem subst_complete_refuted : ~ incl type_carrying_fields (subst_string_fields ++ subst_strvec_fields).
 Proof. exact subst_complete_refuted_l. Qed.
 Print Assumptions subst_complete_refuted.
 
 Theorem subst_unrewritten_recorded :
-  incl (missing type_carrying_fields subst_string_fields) recorded_unrewritten.
+  incl (missing type_carrying_fields (subst_string_fields ++ subst_strvec_fields)) recorded_unrewritten.
 Proof. exact subst_unrewritten_recorded_l. Qed.
 Print Assumptions subst_unrewritten_recorded.
 
 (* ---------------------------------------------------------------- (2) clone on every tree *)
 
-(* clone_ast_node = forget the uncopied children (prune), then forget the uncopied scalars (strip) *)
+(* clone_ast_node = forget the uncopied children (prune), then forget the uncopied scalars (strip): for any tables *)
 Theorem clone_is_strip_of_prune : forall n, clone n = strip (prune n).
 Proof. exact clone_strip_prune_l. Qed.
 Print Assumptions clone_is_strip_of_prune.
 
-(* clone_id, partial: clone is the identity on every tree that uses only copied members ... *)
+(* for any tables: clone is the identity on every tree that uses only copied members *)
 Theorem clone_id_partial : forall n,
-  kids_within cloned_child_fields n = true -> scalars_within cloned_scalar_fields n = true ->
+  kids_within cloned_child_fields n = true -> scalars_within copied_scalar_fields n = true ->
   clone n = n.
 Proof. exact clone_id_l. Qed.
 Print Assumptions clone_id_partial.
 
-(* ... and not on all trees: the AST of `T max<T>(T a, T b) { return a > b ? a : b; }` *)
-Theorem clone_id_refuted : exists n, clone n <> n.
-Proof. exact clone_id_refuted_l. Qed.
-Print Assumptions clone_id_refuted.
+(* clone_id: on the current tables clone_ast_node is the identity on EVERY tree built from members of ASTNode
+   (any size, any depth; a MatchArm carries its four own members).  Refuted on the pinned tree. *)
+Theorem clone_id : forall n,
+  kids_within ast_child_fields n = true -> scalars_within node_scalar_fields n = true -> clone n = n.
+Proof. exact clone_id_all_l. Qed.
+Print Assumptions clone_id.
 
 Theorem clone_result_uses_only_copied_members : forall n,
   kids_within cloned_child_fields (clone n) = true /\
-  scalars_within cloned_scalar_fields (clone n) = true.
+  scalars_within copied_scalar_fields (clone n) = true.
 Proof. exact clone_within_l. Qed.
 Print Assumptions clone_result_uses_only_copied_members.
 
@@ -90,10 +87,8 @@ Print Assumptions clone_idempotent.
 
 (* ---------------------------------------------------------------- (3) instantiate = monomorphise *)
 
-(* For every generic function AST whose child members are all copied and visited (any size, any
-   depth, any type arguments): what instantiate_generic_function returns is the hand-monomorphised
-   copy - the per-node type rewriting applied to every node - of the function minus its uncopied
-   scalar members, with the generic marks cleared. *)
+(* for any tables: on every function AST whose child members are all copied and visited, instantiation is the
+   hand-monomorphised copy of the function minus its uncopied scalar members *)
 Theorem instantiate_is_monomorphise_partial : forall f targs r,
   instantiate f targs = Ok r ->
   kids_within inst_child_fields f = true ->
@@ -101,17 +96,24 @@ Theorem instantiate_is_monomorphise_partial : forall f targs r,
 Proof. exact instantiate_is_mono_l. Qed.
 Print Assumptions instantiate_is_monomorphise_partial.
 
-(* the hypothesis is exactly "uses only copied children" on the current table *)
-Theorem instantiate_hypothesis_is_cloned_children : inst_child_fields = cloned_child_fields.
-Proof. exact inst_fields_are_cloned_l. Qed.
-Print Assumptions instantiate_hypothesis_is_cloned_children.
+(* instantiate_is_monomorphise: on the current tables, for EVERY generic function AST built from members of ASTNode
+   (every statement and expression kind, any size and depth) and any type arguments, what
+   instantiate_generic_function returns is the hand-monomorphised copy: the per-node type rewriting applied to every
+   node, every member kept, the generic marks cleared.  Refuted on the pinned tree (max<T> lost the else-operand of
+   ?:).  What remains outside: `mono` uses the code's own per-node rewriting, whose agreement with structural
+   substitution is (4) - with its three refuted spellings - and the execution of the result is tied by twin runs. *)
+Theorem instantiate_is_monomorphise : forall f targs r,
+  instantiate f targs = Ok r ->
+  kids_within ast_child_fields f = true -> scalars_within node_scalar_fields f = true ->
+  r = clear_generic (mono (build_map (type_params_of f) targs) f).
+Proof. exact instantiate_is_mono_all_l. Qed.
+Print Assumptions instantiate_is_monomorphise.
 
-(* without it the law fails: max<int> loses the else-operand of ?: *)
-Theorem instantiate_is_monomorphise_refuted : exists f targs r,
-  instantiate f targs = Ok r /\
-  r <> clear_generic (mono (build_map (type_params_of f) targs) (strip f)).
-Proof. exact instantiate_is_mono_refuted_l. Qed.
-Print Assumptions instantiate_is_monomorphise_refuted.
+(* the former witness: max<int> keeps all its children *)
+Theorem max_instance_keeps_every_child : forall r, instantiate w_max [S "int"] = Ok r ->
+  child_fields_used r = child_fields_used w_max.
+Proof. exact max_keeps_third_l. Qed.
+Print Assumptions max_instance_keeps_every_child.
 
 (* ---------------------------------------------------------------- (4) the textual type rewriting *)
 
@@ -141,23 +143,35 @@ Theorem subst_total : forall m ps t, wf t -> binds_all m ps -> range_closed m ps
 Proof. exact subst_total_l. Qed.
 Print Assumptions subst_total.
 
-(* ... but for the spellings T*, T[3], Pair<A, B>* and for the type_arguments of a nested generic
-   call a parameter survives / the suffix is lost *)
+(* ... but for the spellings T*, T[3] a parameter survives and Pair<A, B>* loses its suffix *)
 Theorem subst_total_refuted :
   subst_name3 m_T_int (S "T*") = S "T*" /\
   subst_name3 m_T_int (S "T[3]") = S "T[3]" /\
-  subst_name3 (build_map [S "A"; S "B"] [S "int"; S "string"]) (S "Pair<A, B>*") = S "Pair<int, string>" /\
-  subst_node m_T_int (Node 46 [("name"%string, S "g"); ("type_arguments"%string, S "T")] []) =
-    Node 46 [("name"%string, S "g"); ("type_arguments"%string, S "T")] [].
+  subst_name3 (build_map [S "A"; S "B"] [S "int"; S "string"]) (S "Pair<A, B>*") = S "Pair<int, string>".
 Proof. exact subst_total_refuted_l. Qed.
 Print Assumptions subst_total_refuted.
 
-(* a struct-typed local inside any generic function loses TYPE_STRUCT *)
-Theorem struct_local_type_info_refuted :
+(* the type_arguments of a nested generic call are rewritten element by element *)
+Theorem nested_type_arguments_rewritten :
+  subst_node (build_map [S "T"; S "U"] [S "long"; S "Box<int>"])
+     (Node 46 [("name"%string, S "g"); ("type_arguments"%string, s2l "T" ++ [c_nl] ++ s2l "Pair<U, T>")] []) =
+  Node 46 [("name"%string, S "g"); ("type_arguments"%string, s2l "long" ++ [c_nl] ++ s2l "Pair<Box<int>, long>")] [].
+Proof. exact nested_type_arguments_rewritten_l. Qed.
+Print Assumptions nested_type_arguments_rewritten.
+
+(* a struct-typed local keeps TYPE_STRUCT; a T-typed local keeps the parser's type_info when T is bound to a struct and
+   gets the builtin's when T is bound to a builtin (these three are checked instances, not a law for all nodes) *)
+Theorem struct_local_type_info_kept :
   sget "type_info" (scalars_of (subst_node m_T_int
-      (Node 28 [("type_info"%string, S "12"); ("name"%string, S "p"); ("type_name"%string, S "P")] []))) = S "3".
-Proof. exact struct_local_type_info_clobbered_l. Qed.
-Print Assumptions struct_local_type_info_refuted.
+      (Node 28 [("type_info"%string, S "12"); ("name"%string, S "p"); ("type_name"%string, S "P")] []))) = S "12" /\
+  scalars_of (subst_node (build_map [S "T"] [S "P"])
+      (Node 28 [("type_info"%string, S "-1"); ("name"%string, S "r"); ("type_name"%string, S "T")] [])) =
+    [("type_info"%string, S "-1"); ("name"%string, S "r"); ("type_name"%string, S "P")] /\
+  scalars_of (subst_node (build_map [S "T"] [S "long"])
+      (Node 28 [("type_info"%string, S "-1"); ("name"%string, S "r"); ("type_name"%string, S "T")] [])) =
+    [("type_info"%string, S "4"); ("name"%string, S "r"); ("type_name"%string, S "long")].
+Proof. exact struct_local_type_info_kept_l. Qed.
+Print Assumptions struct_local_type_info_kept.
 
 (* ---------------------------------------------------------------- (5) cache key, independence, n-th use *)
 
@@ -191,12 +205,14 @@ Theorem nth_use_like_first : forall tbl h c i j cl r1 r2,
 Proof. exact nth_use_like_first_l. Qed.
 Print Assumptions nth_use_like_first.
 
-(* ... and it would NOT hold for the commented-out cache path (hit -> clone_ast_node(cached)) *)
-Theorem nth_use_like_first_cached_refuted : exists tbl h r1 r2,
-  nth_error h 0 = nth_error h 1 /\
-  run_cached tbl [] h = [r1; r2] /\ r1 <> r2.
-Proof. exact nth_use_cached_refuted_l. Qed.
-Print Assumptions nth_use_like_first_cached_refuted.
+(* with clone_ast_node the identity on the instances (clone_id), switching the cache back on as written
+   (hit -> clone_ast_node(cached)) answers exactly what the live path answers, in any history *)
+Theorem cached_path_equals_live_path : forall tbl h,
+  (forall fn ta i, instantiate (tbl fn) ta = Ok i -> clone i = i) ->
+  Forall (fun cl => good_call (fst cl) (snd cl)) h ->
+  run_cached tbl [] h = run_pinned tbl [] h.
+Proof. exact run_cached_exact_l. Qed.
+Print Assumptions cached_path_equals_live_path.
 
 (* the hypotheses are satisfiable *)
 Example good_call_example : good_call (S "f") [S "int"; S "Box<long>"].
